@@ -230,10 +230,12 @@ pub fn run_campaign(prop: &dyn Prop, tier: Tier, seed: u64, workers: usize) -> C
                 // (C04 itself stops expanding once 50 runs were judged stuck - each of them is
                 // already a reported violation, and a stuck run costs 9 watchdog budgets - or once
                 // 200 runs needed the 8x budget to finish: a healthy tree has 0 or 1 of those)
-                if (prop.id() != "C04" && crate::run::HANGS.load(Ordering::Relaxed) > 200)
-                    || crate::run::STUCK.load(Ordering::Relaxed) > 50
-                    || crate::run::RETRIED.load(Ordering::Relaxed) > 200
-                {
+                let tree_hangs = || {
+                    (prop.id() != "C04" && crate::run::HANGS.load(Ordering::Relaxed) > 200)
+                        || crate::run::STUCK.load(Ordering::Relaxed) > 50
+                        || crate::run::RETRIED.load(Ordering::Relaxed) > 200
+                };
+                if tree_hangs() {
                     let mut cov = Cov::default();
                     cov.bump("aborted_items_after_200_hung_runs");
                     *slots[i as usize].lock().unwrap() = Some((cov, Vec::new(), 0));
@@ -256,6 +258,11 @@ pub fn run_campaign(prop: &dyn Prop, tier: Tier, seed: u64, workers: usize) -> C
                 let mut found = Vec::new();
                 let mut nviol = 0u64;
                 for (j, sc) in scs.iter().enumerate() {
+                    if tree_hangs() {
+                        // (an enumerated item can hold thousands of cases)
+                        cov.bump("aborted_items_after_200_hung_runs");
+                        break;
+                    }
                     cov.cases += 1;
                     let t_before = cov.ticks;
                     let v = guarded_check(prop, sc, &mut cov);
